@@ -21,6 +21,11 @@
   On records that are *not* valid the three accessors can panic (examples at the end): this is why
   C05 (every record handed out is valid) matters.
 
+  `run_no_panic`/`built_no_panic` assume `S.Lawful` (proved for the four built-in key types:
+  `k256S_lawful`, `libsecpS_lawful`, `edS_lawful`, `combS_lawful`, `Proofs/SchemeLemmas.lean`) and,
+  per call, `CallOK` (arguments in range, signer's key shorter than 2^64 bytes — `KeyOK` —, the
+  signer's answer verifies).
+
   Lemmas: `Proofs/StepLemmas.lean` (§1, §7).
 -/
 import EnrVerif.Proofs.StepLemmas
